@@ -6,7 +6,8 @@
                                 distinct images;
   * `pyEq_iff`                  the model's pairwise Python `==` on cells is "same `Value`";
   * `uniqueCount_eq`, `missingCount_eq`   the model's counts are `distinctValues`, `missingValues`;
-  * `percent_eq`                `round(float(k) / float(n) * 100, 2)` evaluates in `PyV` without error to `percentDouble`;
+  * `percent_eq`                `round(float(k) / float(n) * 100, 2)` evaluates in `PyV` without error to `percentDouble`
+                                (a table without rows: `0.0` on both sides, `percentDouble_zero_rows`);
   * `percentDouble_eq_two_decimals`, `rhe_rn_hundredths`, `pctHundredths_close`   the percentage is the double nearest
                                 to a two-decimal number in [0, 100], which is the exact percentage rounded to 2 decimals;
   * `pctToString_eq`, `formatStatistic_percent`   the rendered entry is the specification's `statString`;
@@ -234,37 +235,51 @@ open F64
 /-- the unrounded-to-2-decimals percentage `float(k) / float(n) * 100` as a double -/
 def rawPct (k n : Nat) : Rat := rn (rn ((k : Rat) / (n : Rat)) * 100)
 
-theorem ratio_bounds {k n : Nat} (hk : k ≤ n) (h1 : 1 ≤ n) : (0 : Rat) ≤ (k : Rat) / n ∧ (k : Rat) / n ≤ 1 := by
+theorem ratio_bounds {k n : Nat} (hk : k ≤ n) : (0 : Rat) ≤ (k : Rat) / n ∧ (k : Rat) / n ≤ 1 := by
+  rcases Nat.eq_zero_or_pos n with rfl | h1
+  · simp
   have hn : (0 : Rat) < n := by exact_mod_cast h1
   refine ⟨by positivity, ?_⟩
   rw [div_le_one hn]
   exact_mod_cast hk
 
-theorem rn_ratio_bounds {k n : Nat} (hk : k ≤ n) (h1 : 1 ≤ n) :
+theorem rn_ratio_bounds {k n : Nat} (hk : k ≤ n) :
     0 ≤ rn ((k : Rat) / n) ∧ rn ((k : Rat) / n) ≤ 1 := by
-  obtain ⟨h0, hle⟩ := ratio_bounds hk h1
+  obtain ⟨h0, hle⟩ := ratio_bounds hk
   exact ⟨rn_nonneg h0, rn_le_one h0 hle⟩
 
-theorem rawPct_bounds {k n : Nat} (hk : k ≤ n) (h1 : 1 ≤ n) : 0 ≤ rawPct k n ∧ rawPct k n ≤ 100 := by
-  obtain ⟨h0, hle⟩ := rn_ratio_bounds hk h1
+theorem rawPct_bounds {k n : Nat} (hk : k ≤ n) : 0 ≤ rawPct k n ∧ rawPct k n ≤ 100 := by
+  obtain ⟨h0, hle⟩ := rn_ratio_bounds hk
   unfold rawPct
   refine ⟨rn_nonneg (by positivity), ?_⟩
   have := rn_le_int (q := rn ((k : Rat) / n) * 100) (k := 100) (by positivity) (by norm_num)
     (by push_cast; linarith)
   simpa using this
 
-/-- `round(float(k) / float(n) * 100, 2)` evaluates without any Python error to the specification's double -/
-theorem percent_eq (k n : Nat) (hk : k ≤ n) (h1 : 1 ≤ n) (hn : n < 2 ^ 53) :
+/-- the specification's double for a table without rows is `0.0` (`k / 0 = 0` in `Rat`): what the code's
+    `else` branch assigns -/
+theorem percentDouble_zero_rows (k : Nat) : percentDouble k 0 = 0 := by
+  unfold percentDouble round2 roundN
+  simp only [Nat.cast_zero, div_zero, rn_zero, zero_mul]
+  have := rhe_int 0
+  simp only [Int.cast_zero] at this
+  norm_num [this, rn_zero]
+
+/-- `round(float(k) / float(n) * 100, 2)` (or the `0.0` of a table without rows) evaluates without any Python error
+    to the specification's double -/
+theorem percent_eq (k n : Nat) (hk : k ≤ n) (hn : n < 2 ^ 53) :
     percent k n = .float (percentDouble k n) := by
+  rcases Nat.eq_zero_or_pos n with rfl | h1
+  · rw [percentDouble_zero_rows]; rfl
   have hnR : (n : Rat) ≤ 2 ^ 53 := by exact_mod_cast hn.le
   have hkR : (k : Rat) ≤ 2 ^ 53 := le_trans (by exact_mod_cast hk) hnR
   have hn0 : (n : Rat) ≠ 0 := by
     have : (0 : Rat) < n := by exact_mod_cast h1
     exact ne_of_gt this
-  obtain ⟨h0, hle⟩ := ratio_bounds hk h1
-  obtain ⟨r0, rle⟩ := rn_ratio_bounds hk h1
+  obtain ⟨h0, hle⟩ := ratio_bounds hk
+  obtain ⟨r0, rle⟩ := rn_ratio_bounds hk
   unfold percent percentDouble
-  rw [toFloat_n k hkR, toFloat_n n hnR, div_ff _ _ hn0,
+  rw [if_neg (by omega), toFloat_n k hkR, toFloat_n n hnR, div_ff _ _ hn0,
     ofExact_float h0 (le_trans hle (by norm_num))]
   have h100 : PyV.mul (.float (rn ((k : Rat) / n))) (.int 100) = PyV.ofExact (rn ((k : Rat) / n) * 100) := by
     have := mul_fn (rn ((k : Rat) / n)) 100 (by norm_num)
@@ -276,9 +291,9 @@ theorem percent_eq (k n : Nat) (hk : k ≤ n) (h1 : 1 ≤ n) (hn : n < 2 ^ 53) :
 /-- the percentage in hundredths: `round(·, 2)` rounds the raw percentage to this many hundredths -/
 def pctHundredths (k n : Nat) : Int := rhe (rawPct k n * 100)
 
-theorem pctHundredths_bounds {k n : Nat} (hk : k ≤ n) (h1 : 1 ≤ n) :
+theorem pctHundredths_bounds {k n : Nat} (hk : k ≤ n) :
     0 ≤ pctHundredths k n ∧ pctHundredths k n ≤ 10000 := by
-  obtain ⟨h0, hle⟩ := rawPct_bounds hk h1
+  obtain ⟨h0, hle⟩ := rawPct_bounds hk
   unfold pctHundredths
   refine ⟨rhe_nonneg (by positivity), ?_⟩
   have := rhe_mono (q := rawPct k n * 100) (r := ((10000 : Int) : Rat)) (by push_cast; linarith)
@@ -314,9 +329,9 @@ theorem rhe_rn_hundredths (c : Int) (h0 : 0 ≤ c) (h : c ≤ 10000) : rhe (rn (
     · apply le_rhe_of_lt
       nlinarith
 
-theorem hundredths_percentDouble {k n : Nat} (hk : k ≤ n) (h1 : 1 ≤ n) :
+theorem hundredths_percentDouble {k n : Nat} (hk : k ≤ n) :
     hundredths (percentDouble k n) = (pctHundredths k n).toNat := by
-  obtain ⟨h0, hle⟩ := pctHundredths_bounds hk h1
+  obtain ⟨h0, hle⟩ := pctHundredths_bounds hk
   unfold hundredths
   rw [percentDouble_eq_two_decimals, rhe_rn_hundredths _ h0 hle]
 
@@ -329,7 +344,7 @@ theorem pctHundredths_close {k n : Nat} (hk : k ≤ n) (h1 : 1 ≤ n) (hn : n < 
   have hraw : |rawPct k n - 100 * (k : Rat) / n| ≤ 1 / 10 ^ 13 := by
     rcases Nat.eq_zero_or_pos k with rfl | hkpos
     · simp [rawPct, rn_zero]
-    · obtain ⟨h0, hle⟩ := ratio_bounds hk h1
+    · obtain ⟨h0, hle⟩ := ratio_bounds hk
       have hx : (1 : Rat) / 2 ^ 53 ≤ (k : Rat) / n := by
         rw [div_le_div_iff₀ (by positivity) hnpos, one_mul]
         have : (n : Rat) ≤ 2 ^ 53 := by exact_mod_cast hn.le
@@ -404,19 +419,33 @@ theorem pctToString_eq (q : Rat) (h : 0 ≤ rhe (q * 100)) : pctToString q = rep
 /-! ### C17 for `profileColumn` -/
 
 /-- the formatted statistic of the model is the specification's entry: no Python error, no `"?%"` fallback -/
-theorem formatStatistic_percent (stat k n : Nat) (hk : k ≤ n) (h1 : 1 ≤ n) (hn : n < 2 ^ 53) :
+theorem formatStatistic_percent (stat k n : Nat) (hk : k ≤ n) (hn : n < 2 ^ 53) :
     formatStatistic stat (percent k n) = s!"{stat} ({percentString k n}%)" := by
-  rw [percent_eq k n hk h1 hn]
+  rw [percent_eq k n hk hn]
   unfold formatStatistic percentString
   simp only
   rw [pctToString_eq]
-  rw [percentDouble_eq_two_decimals, rhe_rn_hundredths _ (pctHundredths_bounds hk h1).1 (pctHundredths_bounds hk h1).2]
-  exact (pctHundredths_bounds hk h1).1
+  rw [percentDouble_eq_two_decimals, rhe_rn_hundredths _ (pctHundredths_bounds hk).1 (pctHundredths_bounds hk).2]
+  exact (pctHundredths_bounds hk).1
 
-theorem percentString_eq {k n : Nat} (hk : k ≤ n) (h1 : 1 ≤ n) :
+theorem percentString_eq {k n : Nat} (hk : k ≤ n) :
     percentString k n = reprHundredths (pctHundredths k n).toNat := by
   unfold percentString
-  rw [hundredths_percentDouble hk h1]
+  rw [hundredths_percentDouble hk]
+
+/-- a table without rows: the specification's percentage string is "0.0", whatever the count -/
+theorem percentString_zero_rows (k : Nat) : percentString k 0 = "0.0" := by
+  unfold percentString hundredths
+  rw [percentDouble_zero_rows, zero_mul]
+  have := rhe_int 0
+  simp only [Int.cast_zero] at this
+  rw [this]
+  decide
+
+theorem statString_zero_rows : statString 0 0 = "0 (0.0%)" := by
+  unfold statString
+  rw [percentString_zero_rows]
+  decide
 
 theorem pctHundredths_self {n : Nat} (h1 : 1 ≤ n) : pctHundredths n n = 10000 := by
   have hn : (n : Rat) ≠ 0 := by
@@ -452,20 +481,32 @@ theorem pctHundredths_of_near {k n : Nat} (c : Nat) (hk : k ≤ n) (h1 : 1 ≤ n
   omega
 
 /-- the 'Unique values' entry: the exact number of distinct values and its percentage -/
-theorem profileColumn_fst (col : List Cell) (h0 : col ≠ []) (hn : col.length < 2 ^ 53) :
+theorem profileColumn_fst (col : List Cell) (hn : col.length < 2 ^ 53) :
     (profileColumn col).1 = statString (distinctValues col) col.length := by
-  have h1 : 1 ≤ col.length := List.length_pos_iff.mpr h0
   unfold profileColumn statString
   simp only
-  rw [uniqueCount_eq, formatStatistic_percent _ _ _ (distinctValues_le col) h1 hn]
+  rw [uniqueCount_eq, formatStatistic_percent _ _ _ (distinctValues_le col) hn]
 
 /-- the 'Missing values' entry: the exact number of missing values and its percentage -/
-theorem profileColumn_snd (col : List Cell) (h0 : col ≠ []) (hn : col.length < 2 ^ 53) :
+theorem profileColumn_snd (col : List Cell) (hn : col.length < 2 ^ 53) :
     (profileColumn col).2.1 = statString (missingValues col) col.length := by
-  have h1 : 1 ≤ col.length := List.length_pos_iff.mpr h0
   unfold profileColumn statString
   simp only
-  rw [missingCount_eq, formatStatistic_percent _ _ _ (missingValues_le col) h1 hn]
+  rw [missingCount_eq, formatStatistic_percent _ _ _ (missingValues_le col) hn]
+
+/-- the profile of a column of a table without rows -/
+theorem profileColumn_nil :
+    profileColumn [] = ("0 (0.0%)", "0 (0.0%)", "This attribute can be used as a key attribute.") := by
+  have a := profileColumn_fst [] (by norm_num)
+  have b := profileColumn_snd [] (by norm_num)
+  have c : (profileColumn []).2.2 = "This attribute can be used as a key attribute." := by
+    unfold profileColumn
+    simp only
+    rw [comment_key_iff]
+    decide
+  rw [show distinctValues [] = 0 by decide, List.length_nil, statString_zero_rows] at a
+  rw [show missingValues [] = 0 by decide, List.length_nil, statString_zero_rows] at b
+  exact Prod.ext a (Prod.ext b c)
 
 /-- "This attribute can be used as a key attribute." ⇔ all values distinct and none missing -/
 theorem profileColumn_key_iff (col : List Cell) :
